@@ -1304,11 +1304,14 @@ def search(ctx):
         seen.add(k)
         ctx.witness(key, what, inp)
     with McRunner() as r:
-        jobs = [(_tup(e['prog']), e.get('mode', 'with'), e.get('default_height'), e.get('connected', True), e['file']) for e in corpus if e['kind'] == 'mc']
+        jobs = [(_tup(e['prog']), e.get('mode', 'with'), e.get('default_height'), e.get('connected', True), e['file'], e.get('choices'))
+                for e in corpus if e['kind'] == 'mc']
         for i in range(400 if thorough else 70):
-            jobs.append(gen_mc_program(rng) + (None,))
-        for prog, mode, dh, connected, src in jobs:
+            jobs.append(gen_mc_program(rng) + (None, None))
+        for prog, mode, dh, connected, src, choices in jobs:
             pols = [None] + [vsched.Random(rng.randrange(2 ** 32), stay=rng.choice([0.0, 0.6])) for _ in range(3 if thorough else 2)]
+            if choices is not None:
+                pols.insert(0, vsched.Replay(list(choices)))       # the recorded interleaving of a corpus witness
             for k, pol in enumerate(pols):
                 fine = k == len(pols) - 1          # one schedule with yield points at every time.time() call as well
                 d, res = r.run(prog, mode, dh, connected, policy=pol, instrument=True, yield_on_time=fine)
